@@ -23,7 +23,7 @@ import (
 
 func init() {
 	register(&Prop{ID: "C14", Run: runC14, MinNontrivial: 500,
-		Rule:        "cases = (flow: BuildAuthURL, BuildAuthURLFromDocument, BuildAuthURLRedirect signed/unsigned, BuildLogoutURLRedirect, AuthRedirect) x relay states (empty, spaces, + & = % # ? /, CR/LF, non-ASCII, astral, 4 KiB) x IdP URLs (plain, existing query parameters incl. escaped values, trailing ?, fragment, port, escaped path) x request documents from the builders with random configuration plus caller-made documents x key configurations and compatible signature algorithms; oracle splits the RAW query on & and = (no decoding) to obtain the exact octets, checks endpoint + pre-existing parameters, SAMLRequest -> unescape -> base64 -> raw inflate == doc.WriteToString(), RelayState presence/value, and verifies Signature with the expected public key and the hash named by SigAlg over SAMLRequest=..[&RelayState=..]&SigAlg=.. built from those octets; non-trivial = a URL was produced and parsed; distinct by parameter tuple; class reconfigured-in-flight: the signing key is replaced from inside a URL build (signer callback on the calling goroutine), the URL must be consistent with one configuration; IdP parameter names that contain / end in / case-vary the binding parameter names; relay states swept over every string literal of the library source",
+		Rule:        "cases = (flow: BuildAuthURL, BuildAuthURLFromDocument, BuildAuthURLRedirect signed/unsigned, BuildLogoutURLRedirect, AuthRedirect) x relay states (empty, spaces, + & = % # ? /, CR/LF, non-ASCII, astral, 4 KiB) x IdP URLs (plain, existing query parameters incl. escaped values, trailing ?, fragment, port, escaped path) x request documents from the builders with random configuration plus caller-made documents x key configurations and compatible signature algorithms; oracle splits the RAW query on & and = (no decoding) to obtain the exact octets, checks endpoint + pre-existing parameters, SAMLRequest -> unescape -> base64 -> raw inflate == doc.WriteToString(), RelayState presence/value, and verifies Signature with the expected public key and the hash named by SigAlg over SAMLRequest=..[&RelayState=..]&SigAlg=.. built from those octets; non-trivial = a URL was produced and parsed; distinct by parameter tuple; class reconfigured-in-flight: the signing key is replaced from inside a URL build (signer callback on the calling goroutine), the URL must be consistent with one configuration; IdP parameter names that contain / end in / case-vary the binding parameter names; relay states swept over every string literal of the library source; AuthRedirect given requests with binding-named parameters in query, form body, referer and cookies",
 		Assumptions: []string{"IdP URLs do not themselves contain SAMLRequest/RelayState/SigAlg/Signature parameters", "signature algorithms compatible with the key type"}})
 }
 
